@@ -63,6 +63,7 @@ use crate::eval::runtime::frame_span::FrameSpan;
 use crate::eval::runtime::frozen_file_span::FrozenFileSpan;
 use crate::eval::runtime::slots::LocalCapturedSlotId;
 use crate::eval::runtime::slots::LocalSlotId;
+use crate::typing::starlark_value::TyStarlarkValue;
 use crate::values::FrozenHeap;
 use crate::values::FrozenStringValue;
 use crate::values::FrozenValue;
@@ -364,7 +365,14 @@ impl ExprCompiled {
             ExprCompiled::List(xs) => xs.is_empty(),
             ExprCompiled::Tuple(xs) => xs.is_empty(),
             ExprCompiled::Dict(xs) => xs.is_empty(),
-            ExprCompiled::Value(v) if v.is_builtin() => v.to_value().length().is_ok_and(|l| l == 0),
+            // `len` is defined for values which are not iterable (strings),
+            // and a loop over such value must fail rather than be removed.
+            ExprCompiled::Value(v)
+                if v.is_builtin()
+                    && TyStarlarkValue::is_iterable(&v.to_value().vtable().starlark_value) =>
+            {
+                v.to_value().length().is_ok_and(|l| l == 0)
+            }
             _ => false,
         }
     }
